@@ -12,6 +12,7 @@ from ..report import AnalysisBroken
 from . import c17
 from .c10 import evaluator_overrides
 from .c09 import reachable
+from ..api import flat as api_flat
 
 LEVEL = 'other'
 
@@ -200,45 +201,56 @@ def run(ctx, prog):
             read = any(n.get('k') == 'member' and n['n'] == m and n.get('rec') == B for f in prog.functions for n in walk(f.body))
             fld = [x for x in prog.records[B]['fields'] if x['n'] == m]
             ctx.ob('C19.O3', '%s|%s' % (m, sc), assigned or not read, fld[0]['l'] if fld else B, 'member %s is read but never assigned by the constructor' % m, sample='%s assigned in the constructor' % m)
-        # ---- O4
+        # ---- O4: every element of vararr / vecarr that a method of the store touches is selected by the mapped value of an
+        # iterator of the corresponding map: find(key) on a path that knows the key is registered, or the loop iterator of a
+        # whole-map traversal.  Decided on the evaluated paths (helpers inlined), not on the subscript expressions.
+        from .c11 import mapped_index
+        from ..ownership import lookup_fact
         n_idx = 0
-        for f in prog.functions:
-            if f.get('rec') != B:
+        for f in prog.methods_of(B):
+            if f.get('ctor') or f.get('dtor') or f.get('virt') and f.n.startswith('eval_'):
                 continue
-            for c in calls(f.body, name='operator[]'):
-                a0 = strip(c['args'][0], casts=True)
-                if not (a0.get('k') == 'member' and a0['n'] in ('vararr', 'vecarr')):
-                    continue
+            if not any(n.get('k') == 'member' and n.get('n') in ('vararr', 'vecarr', 'varmap', 'vecmap') for n in walk(f.body)) and \
+                    not any(n.get('k') == 'call' and n.get('inrepo') for n in walk(f.body)):
+                continue
+            E = terms.Evaluator(prog, scalar=scalar, noreturn=('masa_exit',), opaque=('return_name',))
+            E.unroll_paths = True
+            E.assume_nonnull = ('vararr', 'vecarr')
+            try:
+                outs = E.run(f)
+            except RecursionError:
+                continue
+            bad = []
+            seen_here = 0
+            for o in list(outs) + [p_ for p_ in E.trace.exit_paths if p_ not in outs]:
+                ts = [o.ret] if o.ret is not None else []
+                for e in api_flat(o.events):
+                    for x in e[1:]:
+                        if isinstance(x, tuple):
+                            ts.append(x)
+                ts += list(o.conds) + list(o.mem.values())
+                for t in ts:
+                    for st in (terms.subterms(t) if isinstance(t, tuple) and t and isinstance(t[0], str) else ()):
+                        if st[0] == 'elem' and st[1][0] == 'sym' and st[1][1] in ('vararr', 'vecarr'):
+                            seen_here += 1
+                            mp = 'varmap' if st[1][1] == 'vararr' else 'vecmap'
+                            idx = st[2]
+                            if mapped_index(idx, mp, loopvar=True):
+                                continue
+                            keyt = None
+                            if idx[0] == 'field' and idx[2] == 'second' and idx[1][0] == 'call' and idx[1][1] in ('op:operator*', 'op:operator->') and len(idx[1][2]) == 1:
+                                it = idx[1][2][0]
+                                if it[0] == 'mcall' and it[1] == ('sym', mp) and it[2] == 'find' and len(it[3]) == 1:
+                                    keyt = it[3][0]
+                            if keyt is None:
+                                bad.append('%s[%s]: the index is not the mapped value of a %s iterator' % (st[1][1], terms.fmt(idx)[:50], mp))
+                            elif not any(lf is not None and lf[0] == keyt and lf[1] is True for lf in [lookup_fact(c, mp) for c in o.conds]):
+                                bad.append('%s[%s.find(%s)->second] on a path that has not established that the name is registered' % (st[1][1], mp, terms.fmt(keyt)[:20]))
+            if seen_here:
                 n_idx += 1
-                mp = 'varmap' if a0['n'] == 'vararr' else 'vecmap'
-                idx = strip(c['args'][1], casts=True)
-                ok = False
-                if idx.get('k') == 'member' and idx['n'] == 'second':
-                    b = strip(idx['base'], casts=True)
-                    if b.get('k') == 'call' and b.get('n') in ('operator->', 'operator*'):
-                        it = strip(b['args'][0], casts=True)
-                        if it.get('k') == 'local':
-                            # all definitions of the iterator come from mp.find / mp.begin
-                            srcs = []
-                            for n in walk(f.body):
-                                if n.get('k') == 'decl':
-                                    for v in n['vars']:
-                                        if v['id'] == it['id'] and v.get('init') is not None:
-                                            srcs.append(v['init'])
-                                if n.get('k') == 'call' and n.get('opcall') and n.get('n') == 'operator=' and is_local(n['args'][0], it['id']):
-                                    srcs.append(n['args'][1])
-                            good = []
-                            for s_ in srcs:
-                                s_ = strip(s_, casts=True)
-                                while s_.get('k') == 'construct' and len(s_['args']) == 1:
-                                    s_ = strip(s_['args'][0], casts=True)
-                                if s_.get('k') == 'construct' and not s_['args']:
-                                    continue  # default-constructed, assigned later
-                                good.append(s_.get('k') == 'call' and s_.get('n') in ('find', 'begin', 'cbegin') and is_this_member(s_.get('obj'), mp))
-                            ok = bool(good) and all(good)
-                ctx.ob('C19.O4', '%s|%s|%s' % (f.n, c['l'], sc), ok, c['l'], '%s subscripts %s with `%s`, not the mapped value of a %s iterator' % (f.n, a0['n'], show(c['args'][1]), mp),
-                       sample='%s: %s[it->second]' % (f.n, a0['n']))
-        ctx.floor('vararr_vecarr_subscripts<%s>' % scalar, n_idx, 9)
+                ctx.ob('C19.O4', '%s|%s|%s' % (f.n, f.sig, sc), not bad, f.where, '%s: %s' % (f.n, '; '.join(sorted(set(bad))[:2])),
+                       sample='%s: every vararr/vecarr element is selected by a checked map iterator' % f.n)
+        ctx.floor('store_methods_indexing_the_arrays<%s>' % scalar, n_idx, 2)
     # ---------------- O5 (C boundary) - the wrappers are <double> only
     wr = {f.n: f for f in prog.fn_by_tu.get('cmasa.cpp', []) if f.get('externc')}
     for name, fnc in (('masa_get_name', c17.check_get_name), ('masa_set_array', c17.check_set_array), ('masa_get_array', c17.check_get_array)):
